@@ -17,5 +17,4 @@ INVARIANT FramingTruthful
 INVARIANT ReceiverFollowsRfc
 INVARIANT CloseAgree
 INVARIANT NoHang
-POSTCONDITION PrintExhibits
 CHECK_DEADLOCK FALSE
